@@ -115,6 +115,8 @@ Section Runner.
   | Goal (met : bool)                          (* self.goal(self.learner) returned met *)
   | Wait (done : list (nat * outcome))         (* wait(.., FIRST_COMPLETED) returned; processing order *)
   | Cancel                                     (* task.cancel() / an interrupt raised inside the wait *)
+  | SubmitCancel (j : nat)                     (* the goal is unmet and an interrupt is raised inside
+                                                  _get_futures after j submissions of the batch *)
   | Shutdown (got : list (nat * outcome)).     (* wait(remaining) returned; for BlockingRunner [got] are
                                                   the futures that were not cancelled and are done, in
                                                   the order in which they are processed *)
@@ -160,11 +162,20 @@ Section Runner.
     | None => s      (* KeyError in Python; unreachable (RunnerProofs.inv_retry_idp) *)
     end.
 
-  Definition get_futures (s : rst) : rst :=
+  (* [upto = Some j]: an interrupt (Ctrl-C) arrives inside _get_futures after j
+     points of the batch were handed to the executor, i.e. inside the (j+1)-th
+     self._submit (or right after the loop when the batch has at most j points):
+     the rest of the for loop is not executed.  [None]: the loop runs to its end. *)
+  Definition cut (upto : option nat) (l : list nat) : list nat :=
+    match upto with Some j => firstn j l | None => l end.
+
+  Definition get_futures_upto (upto : option nat) (s : rst) : rst :=
     let n := get_max_tasks - length (pend s) in            (* max(0, ...) : truncated subtraction *)
     let s1 := if c_log c then set_log s (log s ++ [LAsk n]) else s in
     let '(pids, s2) := ask s1 n in
-    fold_left submit_pid pids s2.
+    fold_left submit_pid (cut upto pids) s2.                (* for pid in pids: ... *)
+
+  Definition get_futures (s : rst) : rst := get_futures_upto None s.
 
   (* ---- _process_futures ------------------------------------------------ *)
   (* the body of "for fut in done_futs:" for one future; returns the state and
@@ -230,6 +241,7 @@ Section Runner.
     match ph s, e with
     | AtGoal, Goal true => stop s GoalMet                          (* while not self.goal(self.learner) *)
     | AtGoal, Goal false => set_ph (get_futures s) InWait          (* futures = self._get_futures(); wait(...) *)
+    | AtGoal, SubmitCancel j => stop (get_futures_upto (Some j) s) Cancelled   (* the exception propagates into finally *)
     | InWait, Wait done =>
         match process s done with                                  (* self._process_futures(done) *)
         | (s', None) => set_ph s' AtGoal
@@ -273,4 +285,4 @@ End Runner.
 Arguments Err {V}.
 Arguments LAsk {P V}.
 Arguments TRemove {P V}. Arguments TCancel {P V}. Arguments TDone {P V}. Arguments TAsk {P V}. Arguments TSubmit {P V}.
-Arguments Goal {V}. Arguments Cancel {V}.
+Arguments Goal {V}. Arguments Cancel {V}. Arguments SubmitCancel {V}.
